@@ -11,11 +11,18 @@ package sshagent
 // identities the agent listed / identities the clean-up loop looked at
 //@ ghost var ghostListed int
 //@ ghost var ghostExamined int
+//@ ghost var ghostCurLabel string
+//@ ghost var ghostMustRemove bool
 //@ func deleteDuplicateEntries
 //@   handler deleteDuplicateEntries
 //@   atcall agent.ExtendedAgent).List sets ghostListed int (a agent.ExtendedAgent, keys []*agent.Key, err2 error) :: len(keys) if err2 == nil
 //@   atcall ssh.ParsePublicKey sets ghostExamined int (in []byte, out ssh.PublicKey, err2 error) :: ghostExamined + 1
 //@   ensures ret1 == nil ==> ghostExamined == ghostListed                      #C19.every-identity-examined @C19
 //@   loop 1 (rangeindex int) invariant ghostExamined == rangeindex + 1          #C19.examined-in-step @C19
+// ... and removes it when it is a certificate carrying the label that is about to be installed (the agent's comment)
+//@   atcall agent.Key).Marshal sets ghostCurLabel string (k *agent.Key, out []byte) :: k.Comment
+//@   atcall ssh.ParsePublicKey sets ghostMustRemove bool (in []byte, out ssh.PublicKey, err2 error) :: err2 == nil && isType[*ssh.Certificate](out) && ghostCurLabel == comment
+//@   atcall agent.ExtendedAgent).Remove sets ghostMustRemove bool (a agent.ExtendedAgent, k ssh.PublicKey, err2 error) :: false
+//@   loop 1 (rangeindex int) invariant !ghostMustRemove                          #C19.same-label-certificates-removed @C19
 // the clean-up precedes every insertion
 //@ callers agent.ExtendedAgent).Add only withAddedKeyUpsertCertIntoAgentConnection   #C19.insert-only-after-cleanup @C19
